@@ -243,7 +243,7 @@ pub fn child_acc08(interesting: bool) -> ! {
         });
     });
     let t0 = std::time::Instant::now();
-    while (good_sent.load(Ordering::SeqCst) == 0 || contacted.load(Ordering::SeqCst) < 11) && t0.elapsed().as_secs() < 15 {
+    while (good_sent.load(Ordering::SeqCst) == 0 || contacted.load(Ordering::SeqCst) < 11) && t0.elapsed().as_secs() < 60 {
         std::thread::sleep(std::time::Duration::from_millis(10));
     }
     // one connection to the client: bytes before we say anything, then bytes after our handshake
@@ -273,7 +273,8 @@ pub fn child_acc08(interesting: bool) -> ! {
             }
             let mut got: Vec<u8> = vec![];
             loop {
-                match tokio::time::timeout(std::time::Duration::from_millis(900), s.read(&mut buf)).await {
+                // (generous: the answer ends the wait, a closed connection too; only a silent open one costs the time)
+                match tokio::time::timeout(std::time::Duration::from_millis(6000), s.read(&mut buf)).await {
                     Ok(Ok(0)) => break,
                     Ok(Ok(n)) => got.extend_from_slice(&buf[..n]),
                     _ => break,
